@@ -15,7 +15,7 @@ def dispatch (prop : String) (inp out : List String) : Verdict :=
   match prop with
   | "C07" => C07.check inp out
   | "C01" => if inp.head? == some "auth" then AuthDrv.check "C01" inp out else C01.check inp out
-  | "C02" => C02.check inp out
+  | "C02" => if inp.head? == some "auth" then AuthDrv.check "C02" inp out else C02.check inp out
   | "C17" => C17.check inp out
   | "C13" => C13.check inp out
   | "C03" => SessDrv.check "C03" inp out
@@ -30,9 +30,9 @@ def dispatch (prop : String) (inp out : List String) : Verdict :=
   | "C20" => AuthDrv.check "C20" inp out
   | "C16" => TaskDrv.check inp out
   | "C19" => KinDrv.check inp out
-  | "C08" => DrvDrv.check "C08" inp out
-  | "C11" => DrvDrv.check "C11" inp out
-  | "C12" => DrvDrv.check "C12" inp out
+  | "C08" => if inp.head? == some "auth" then AuthDrv.check "C08" inp out else DrvDrv.check "C08" inp out
+  | "C11" => if inp.head? == some "auth" then AuthDrv.check "C11" inp out else DrvDrv.check "C11" inp out
+  | "C12" => if inp.head? == some "auth" then AuthDrv.check "C12" inp out else DrvDrv.check "C12" inp out
   | _ => .bad s!"unknown property {prop}"
 
 structure Tally where
